@@ -215,7 +215,13 @@ impl World {
             // indices >= 100 are the same snippets with two lines inserted on top (an unsaved edit
             // that shifts every later position)
             let body = SNIPPETS[(snippet_idx % 100) % SNIPPETS.len()].1.as_bytes();
-            if snippet_idx >= 100 {
+            if snippet_idx >= 200 {
+                // a reflow that keeps every byte offset after the first line: two spaces of the
+                // import line become two newlines after it (same length; later text moves two
+                // lines down and keeps its byte position)
+                let text = String::from_utf8_lossy(body).to_string();
+                text.replacen("import { iso } from '@iso';\n", "import {iso} from '@iso';\n\n\n", 1).into_bytes()
+            } else if snippet_idx >= 100 {
                 let mut v = b"// edited\n// in the editor\n".to_vec();
                 v.extend_from_slice(body);
                 v
